@@ -10,7 +10,12 @@ import (
 	"fmt"
 	"go/ast"
 	"go/token"
+	"os"
+	"path/filepath"
 	"strings"
+
+	"verif/harness/c13facts"
+	"verif/harness/c14facts"
 
 	"verif/harness/hc"
 )
@@ -166,7 +171,34 @@ func callArgs(e ast.Expr, name string) ([]ast.Expr, bool) {
 	return nil, false
 }
 
+// depFacts: the model of C15 imports the models of C13 (CheckDH) and C14 (big-endian helpers); their
+// generated fact files are regenerated here as well, so that `./check C15` alone sees the current source
+// of those packages too (written next to this property's own -out file).
+func depFacts(f *hc.Facts) {
+	out := ""
+	for i, a := range os.Args {
+		if a == "-out" && i+1 < len(os.Args) {
+			out = os.Args[i+1]
+		}
+	}
+	if out == "" {
+		return
+	}
+	for _, d := range []struct {
+		prop string
+		gen  func(*hc.Facts)
+	}{{"C13", c13facts.Facts}, {"C14", c14facts.Facts}} {
+		g := hc.NewFacts(d.prop, f.Repo)
+		d.gen(g)
+		if err := g.Write(filepath.Join(filepath.Dir(out), d.prop+".lean")); err != nil {
+			fmt.Fprintln(os.Stderr, "facts of", d.prop, ":", err)
+			os.Exit(2)
+		}
+	}
+}
+
 func facts(f *hc.Facts) {
+	depFacts(f)
 	t := &bytesTr{f: f, done: map[string]bool{}}
 	for _, m := range []string{"saltHash", "primary", "pbkdf2", "secondary"} {
 		t.translate(m)
